@@ -25,7 +25,7 @@ def is_friendly(v):
     t = type(v)
     if t in SCALARS or t is dict or t in LISTLIKE:
         return True
-    if isinstance(v, Exception) and t.__module__ == 'builtins':
+    if issubclass(t, Exception) and t.__module__ == 'builtins':
         return True
     return getattr(t, '__name__', '') in ('Plain',) or getattr(t, '__name__', '').startswith('K_')
 
@@ -41,7 +41,7 @@ def children_of(v):
         return [({str(i)}, c) for i, c in enumerate(v)]
     if t in (set, frozenset):
         return 'unordered'
-    if isinstance(v, Exception) and t.__module__ == 'builtins':
+    if issubclass(t, Exception) and t.__module__ == 'builtins':
         return [({str(i)}, c) for i, c in enumerate(v.args)]
     d = getattr(v, '__dict__', None)
     if isinstance(d, dict):
@@ -132,7 +132,7 @@ def compare_var(var_lookup, vid, value, limits, path, depth, budget_hit=False, s
             pool = [x for x in pool if x is not hit] + [x for x in pool if x is hit][1:]
         return
     expected = kids
-    if type(value) in (list, tuple) or isinstance(value, Exception):
+    if type(value) in (list, tuple) or issubclass(type(value), Exception):
         expected = kids[:limits.max_collection_size]
     by_name = {}
     for c in got:
